@@ -17,12 +17,58 @@ import (
 // ExcludeFragile lists field names removed from the generator because they are recorded known findings.
 var ExcludeFragile = map[string]bool{}
 
+// ExcludeShapes lists grammar shapes switched off because they are recorded known findings
+// (VERIF_C07_EXCLUDE_SHAPES, comma separated). Shapes: deref-unnamed-param, deref-blank-param, deref-variadic,
+// deref-param-r (a method of the type behind an @fp.Deref type with such a parameter list),
+// deref-unexported-xpkg (an unexported method on a base type of another package), useshow-error-typed-var (a
+// package-level variable of type error in a package using @fp.String(useShow=true)), pubfield-generic-base
+// (@fp.GetterPubField / @fp.WithPubField on a defined type over a same-package generic struct whose type
+// parameter X instantiates or renames), deref-hand-into-generic (a hand-written generic IntoX next to a generic
+// @fp.Deref type).
+var ExcludeShapes = map[string]bool{}
+
+// IncludeShapes switches on shapes the grammar leaves out because the documents do not say what is right
+// (VERIF_C07_INCLUDE_SHAPES): json-any-untagged (a field of type `any` without json tag in an @fp.Json /
+// @fp.JsonTag struct; the twin then expects omitempty as for every other interface-typed field).
+var IncludeShapes = map[string]bool{}
+
 func init() {
 	if v := os.Getenv("VERIF_C07_EXCLUDE_NAMES"); v != "" {
 		for _, n := range strings.Split(v, ",") {
 			ExcludeFragile[n] = true
 		}
 	}
+	if v := os.Getenv("VERIF_C07_INCLUDE_SHAPES"); v != "" {
+		for _, n := range strings.Split(v, ",") {
+			IncludeShapes[strings.TrimSpace(n)] = true
+		}
+	}
+	if v := os.Getenv("VERIF_C07_EXCLUDE_SHAPES"); v != "" {
+		for _, n := range strings.Split(v, ",") {
+			ExcludeShapes[strings.TrimSpace(n)] = true
+		}
+	}
+}
+
+// drawPkg draws a package spec. jsonOnly: the C15 variant (every struct under @fp.Json, no @fp.Deref types).
+// allowPb: base types of @fp.Deref types may live in a second package scratch/pb (needs pbSource written).
+// withDeref: also draw `// @fp.Deref` defined types. C07's statement speaks of struct declarations under @fp.Value
+// and its annotation family; a defined type `type X Y` under @fp.Deref is not one, and no listed property states
+// what its forwarding methods must do. The production (deref.go) is therefore used for C13's determinism inputs
+// only, and for C07 only on request (VERIF_C07_INCLUDE_SHAPES=deref, exploration; see DESIGN.md 10.3).
+func drawPkg(rt *rapid.T, jsonOnly, allowPb, withDeref bool) pkgSpec {
+	n := rapid.IntRange(1, 4).Draw(rt, "nstructs")
+	var p pkgSpec
+	for i := 0; i < n; i++ {
+		p.structs = append(p.structs, drawStruct(rt, i+1, ExcludeFragile, jsonOnly))
+	}
+	if !jsonOnly && withDeref && rapid.IntRange(0, 2).Draw(rt, "derefs") == 0 {
+		nd := rapid.IntRange(1, 2).Draw(rt, "nderefs")
+		for i := 0; i < nd; i++ {
+			p.derefs = append(p.derefs, drawDeref(rt, i+1, allowPb))
+		}
+	}
+	return p
 }
 
 type outcome struct {
@@ -40,9 +86,15 @@ func runPackage(p pkgSpec) (fails []outcome, stage string) {
 	if err := m.WriteFile("pa/types.go", p.sourceFixed()); err != nil {
 		return []outcome{{"infra", err.Error()}}, "infra"
 	}
+	if pb := p.pbSource(); pb != "" {
+		// hand-written package holding base types of @fp.Deref types; gombok is not run on it
+		if err := m.WriteFile("pb/types.go", pb); err != nil {
+			return []outcome{{"infra", err.Error()}}, "infra"
+		}
+	}
 	// the input package itself must compile (harness sanity)
 	if r := m.Go(180*time.Second, "build", "./pa"); r.ExitCode != 0 {
-		return []outcome{{"infra|input-does-not-compile", scratch.FirstError(r.Out) + "\n" + p.sourceFixed()}}, "infra"
+		return []outcome{{"infra|input-does-not-compile", scratch.FirstError(r.Out) + "\n" + p.sourceFixed() + "\n" + p.pbSource()}}, "infra"
 	}
 	g := m.RunGombok("pa", "pa")
 	if g.TimedOut {
@@ -65,7 +117,7 @@ func runPackage(p pkgSpec) (fails []outcome, stage string) {
 		return []outcome{{"gombok-failed|" + scratch.ErrorClass(first), "gombok exit " + fmt.Sprint(g.ExitCode) + ": " + clip(g.Out, 1500)}}, "gombok"
 	}
 	gen := m.ReadFile("pa/pa_value_generated.go")
-	if gen == "" && p.anyAppliedField() {
+	if gen == "" && p.mustEmit() {
 		return []outcome{{"gombok|no-output", "gombok wrote no pa_value_generated.go; output: " + clip(g.Out, 800)}}, "gombok"
 	}
 	if r := m.Go(180*time.Second, "build", "./pa"); r.ExitCode != 0 {
@@ -74,7 +126,7 @@ func runPackage(p pkgSpec) (fails []outcome, stage string) {
 	}
 	law := strings.Replace(scratch.LawLib, "package PKGNAME", "package pa", 1)
 	_ = m.WriteFile("pa/zz_law_test.go", law)
-	_ = m.WriteFile("pa/zz_cases_test.go", p.cases(genfp.MaxProduct))
+	_ = m.WriteFile("pa/zz_cases_test.go", p.cases(genfp.MaxProduct, gen))
 	r := m.Go(300*time.Second, "test", "-count=1", "-vet=off", "-v", "./pa")
 	if r.TimedOut {
 		return []outcome{{"law|timeout", "law test did not finish"}}, "law"
@@ -103,15 +155,40 @@ func runPackage(p pkgSpec) (fails []outcome, stage string) {
 }
 
 // gombok deliberately emits nothing for a struct none of whose fields it applies (processValue returns
-// early when applyFields is empty), and writes no file when nothing at all was emitted. So a missing
-// output file is a violation only if some struct has a field gombok must act on; otherwise the law test
-// below runs against the package as it is and decides.
-func (p pkgSpec) anyAppliedField() bool {
+// early when applyFields is empty), for @fp.Getter / @fp.With without private fields, for @fp.GetterPubField /
+// @fp.WithPubField without public fields and for @fp.Deref on a plain identifier, and it writes no file when
+// nothing at all was emitted. So a missing output file is a violation only if some declaration has a member
+// gombok must emit; otherwise the law test below runs against the package as it is and decides.
+func (p pkgSpec) mustEmit() bool {
 	for _, s := range p.structs {
+		priv, pub, app := 0, 0, 0
 		for _, f := range s.fields {
 			if f.applied() {
-				return true
+				app++
 			}
+			if f.private() && f.name != s.handGet && f.name != s.handWith {
+				priv++
+			}
+			if f.plainPublic() && f.name != s.handGetPub && f.name != s.handWithPub {
+				pub++
+			}
+		}
+		if s.value && app > 0 {
+			return true
+		}
+		if app > 0 && (s.builder || s.str || s.allArgs || s.reqArgs) {
+			return true
+		}
+		if (s.getter || s.with) && priv > 0 {
+			return true
+		}
+		if (s.getterPub || s.withPub) && pub > 0 {
+			return true
+		}
+	}
+	for _, d := range p.derefs {
+		if d.rhsForm() != "ident" && !(d.handDeref && d.handInto) {
+			return true
 		}
 	}
 	return false
@@ -131,18 +208,16 @@ func clip(s string, n int) string {
 	return s
 }
 
-const ruleC07 = "package spec drawn from a grammar: 1-4 structs under @fp.Value (+ optional @fp.Json/@fp.JsonTag/@fp.GenLabelled, doc comment on the type or inside a type group), 1-25 fields (private / Public / _underscore / embedded empty and non-empty; ordinary names incl. the short ones the generator uses itself: r v t m ok b err s w i), types: basic, named (time.Time, local), pointer, slice, array, map, func, chan, interfaces (any, error, named, inline), fp.Option/Seq/Map/Try/Tuple2/Either, type parameters with any/comparable/fmt.Stringer/inline constraints, struct tags, hand-written members; 2-3 literal values per struct. Pipeline: gombok from the tree under test -> go build -> reflective law test inside the package. Non-trivial iff a struct mixes >= 3 field kinds or has a type parameter; distinct by rendered spec"
+const ruleC07 = "package spec drawn from a grammar: 1-4 structs under @fp.Value (+ optional @fp.Json/@fp.JsonTag/@fp.GenLabelled, doc comment on the type or inside a type group) or the explicit family @fp.Getter/@fp.With/@fp.Builder/@fp.String[(useShow=true) with a hand-written Show instance]/@fp.AllArgsConstructor, plus @fp.RequiredArgsConstructor, @fp.GetterPubField, @fp.WithPubField, fp:\"String.Exclude\" field tags; in a third of the packages 1-2 @fp.Deref types `type D Base...` over a struct type with 0-2 type parameters and drawn methods (value/pointer receivers, with/without results), written as identifier, qualified identifier (second package pb) or instantiation, members declared by hand; 1-25 fields (private / Public / _underscore / embedded empty and non-empty; ordinary names incl. the short ones the generator uses itself: r v t m ok b err s w i), types: basic, named (time.Time, local), pointer, slice, array, map, func, chan, interfaces (any, error, named, inline), fp.Option/Seq/Map/Try/Tuple2/Either, type parameters with any/comparable/fmt.Stringer/inline constraints, struct tags, hand-written members; 2-3 literal values per struct. Pipeline: gombok from the tree under test -> go build -> reflective law test inside the package. Non-trivial iff a struct mixes >= 3 field kinds or has a type parameter; distinct by rendered spec"
 
 // PkgCheck registers one sub-check running generated packages through gombok.
 // prop "C07": all laws except the JSON clauses; prop "C15": only the JSON clauses.
 // DrawValueSource draws a package from the C07 grammar and returns its source text (pa/types.go) and a
 // few labels. Used by C13, whose determinism clause ranges over "the scratch packages of C07/C08".
 func DrawValueSource(rt *rapid.T) (src string, labels []string) {
-	n := rapid.IntRange(1, 4).Draw(rt, "nstructs")
-	var p pkgSpec
-	for i := 0; i < n; i++ {
-		p.structs = append(p.structs, drawStruct(rt, i+1, ExcludeFragile, false))
-	}
+	// a single file: base types of @fp.Deref types stay inside the package
+	p := drawPkg(rt, false, false, true)
+	n := len(p.structs)
 	seen := map[string]bool{}
 	add := func(l string) {
 		if !seen[l] {
@@ -170,6 +245,10 @@ func DrawValueSource(rt *rapid.T) (src string, labels []string) {
 			}
 		}
 	}
+	for _, d := range p.derefs {
+		add("ann:@fp.Deref")
+		add("deref-rhs:" + d.rhsForm())
+	}
 	return p.sourceFixed(), labels
 }
 
@@ -189,11 +268,7 @@ func numericTie(a, b string) bool {
 
 func PkgCheck(t *testing.T, name string, jsonOnly bool, prop string, casesPerProcess int) {
 	kit.Check(t, name, ruleC07, kit.Opt{Abs: casesPerProcess, HangAfter: 20 * time.Minute}, func(rt *rapid.T, rec *kit.Rec) {
-		n := rapid.IntRange(1, 4).Draw(rt, "nstructs")
-		var p pkgSpec
-		for i := 0; i < n; i++ {
-			p.structs = append(p.structs, drawStruct(rt, i+1, ExcludeFragile, jsonOnly))
-		}
+		p := drawPkg(rt, jsonOnly, true, IncludeShapes["deref"])
 		nt := false
 		for _, s := range p.structs {
 			kinds := map[string]bool{}
@@ -221,6 +296,35 @@ func PkgCheck(t *testing.T, name string, jsonOnly bool, prop string, casesPerPro
 			}
 			if len(s.fields) >= 22 {
 				rec.Label("fields>=22")
+			}
+			for _, f := range s.fields {
+				if f.strExclude {
+					rec.Label("tag:fp-String.Exclude")
+				} else if strings.Contains(f.tag, "fp:") {
+					rec.Label("tag:fp-other")
+				}
+			}
+			if s.useShow != "" {
+				rec.Label("useShow-instance:" + s.useShow)
+			}
+			if s.handGetPub != "" || s.handWithPub != "" {
+				rec.Label("hand:pub-member")
+			}
+		}
+		for _, d := range p.derefs {
+			nt = true
+			for _, a := range d.annotations() {
+				rec.Label("ann:" + a)
+			}
+			rec.Label("deref-rhs:" + d.rhsForm())
+			for _, sh := range d.shapes() {
+				rec.Label("shape:" + sh)
+			}
+			if len(d.handMeths) > 0 || d.handDeref || d.handInto {
+				rec.Label("deref:hand-member")
+			}
+			for _, m := range d.methods {
+				rec.Label("deref-method:" + m.name)
 			}
 		}
 		rec.Case(nt, p.describe())
